@@ -222,9 +222,28 @@ def rxStep (g : Group) (idx : String) : List String → Group × String
     (g, s!"{idx} ret={bits rets} {rxDump g}")
   | _ => (g, idx ++ " bad-op")
 
+/-! ### handshakes: `hs <idx> <configured path|-> <request path> <end close|malformed|text>`
+  -> `<idx> accept hooks=1/1 ctx=<path>?who=7 err=h0c<0|1>`  |  `<idx> reject hooks=0/0 ctx=- err=h1c0` -/
+def hsStep (idx cfg req end_ : String) : String :=
+  let cfg := if cfg == "-" then "" else cfg
+  if !(end_ == "close" || end_ == "malformed" || end_ == "text") then idx ++ " bad-op" else
+  if pathAccepted cfg.toList req.toList then
+    -- accepted: one connect / one disconnect, the handshake-aware hook sees the request's path and query;
+    -- the built-in loop reports one Connection error iff the reader returned Err
+    let cause : Cause := if end_ == "close" then .close else if end_ == "text" then .protocolViolation else .malformedFrame
+    let m := (Sim.mk init true none none).acts ⟨Gen.Lifecycle.facts, 2, 1, 64, false⟩
+      [.handshakeOk, .hookStart, .hookReturn, .hookStart, .hookReturn, .enterReader, .readerExit cause, .writerFinish, .writerJoined]
+    let nc := (m.st.trace.filter (fun e => match e with | .connect 0 => true | _ => false)).length
+    let nd := (m.st.trace.filter (fun e => match e with | .disconnect _ _ => true | _ => false)).length
+    s!"{idx} accept hooks={nc}/{nd} ctx={req}?who=7 err=h0c{if cause.isError then 1 else 0}"
+  else
+    let m := (Sim.mk init true none none).act ⟨Gen.Lifecycle.facts, 2, 1, 64, false⟩ .handshakeFail
+    s!"{idx} reject hooks={m.st.trace.length}/{m.st.trace.length} ctx=- err=h1c0"
+
 def step (g : Group) (ws : List String) : Group × String :=
   match ws with
   | "rx" :: idx :: rest => rxStep g idx rest
+  | ["hs", idx, cfg, req, end_] => (g, hsStep idx cfg req end_)
   | ["group", _, entry, nconn, nctx, ndisc, reg, cap, mode, _nctxRegistered] =>
     ({ entry, nconn := natOf nconn, nctx := natOf nctx, ndisc := natOf ndisc, reg := natOf reg, cap := natOf cap, mode }, "")
   | ["scen", idx, phase, cause, notif, at_, nreq, got] =>
